@@ -81,6 +81,7 @@ GROUPS = {
 def _derive():
     levels = {}
     problems = []
+    members = {}
     for g, (ms, fn) in GROUPS.items():
         sets = {}
         for combo in itertools.product(*[list(LV[m]) for m in ms]):
@@ -93,11 +94,21 @@ def _derive():
                 problems.append("highest-severity vectors of %s%s have unequal severity sums" % (g, lvl))
             depth = max(sum(a) for a in vecs) - min(sum(a) for a in vecs) + 1
             info[lvl] = (front, depth)
+            members.setdefault(g, {})[lvl] = vecs
         levels[g] = info
-    return levels, problems
+    return levels, problems, members
 
 
-LEVELS, DERIVE_PROBLEMS = _derive()
+LEVELS, DERIVE_PROBLEMS, MEMBERS = _derive()
+
+
+def values_of(g, levels_tuple):
+    """value dict of a member of group g given as a tuple of severity levels."""
+    ms = GROUPS[g][0]
+    out = {}
+    for m, lv in zip(ms, levels_tuple):
+        out[m] = [val for val, l in LV[m].items() if l == lv][0]
+    return out
 
 
 def load_lookup():
